@@ -10,7 +10,7 @@
                               computed by EdifCable.assemble (bus_subset_positions: bit i at
                               position i - lower, empty wires in the gaps);
      scalar_roundtrip         a scalar cable whose name is not of the bit form is read unchanged.
-   Refutations: bus_amp_lost / bus_amp_ident_lost (identifier "&_x": bits not recognised),
+   bus_amp_ident_read (identifier "&_x": former refutation, repaired K4); refutation:
    scalar_bitlike_lost (a scalar named "x[1]" comes back as bit 1 of an array cable "x"). *)
 From Coq Require Import String List NArith Bool Lia Arith Permutation.
 From SV Require Import Base.Base Fmt.EdifName Fmt.EdifCable Fmt.EdifBus
@@ -20,8 +20,6 @@ Import ListNotations.
 (* ------------------------------------------------------------------------------------------ *)
 (* Side conditions                                                                             *)
 
-(* the identifier is not "&" and does not start with "&_" *)
-Definition ident_ok (ident : str) := starts_amp_us (ident ++ [c_us]) = false.
 (* the name does not start with a backslash *)
 Definition name_ok (name : str) := match name with c :: _ => c <> c_bsl | [] => True end.
 (* the writer uses per-bit names *)
@@ -74,26 +72,26 @@ Qed.
 (* ------------------------------------------------------------------------------------------ *)
 (* The reader on bit nets is EdifCable.assemble                                                *)
 
-Lemma read_more_bits {P} ident name : ident_ok ident -> name_ok name ->
+Lemma read_more_bits {P} ident name : name_ok name ->
   forall (bits : list (N * list P)) c, c_array c = true ->
   read_more c (map (bit_net ident name) bits) = Some (assemble_from c bits).
 Proof.
-  intros Hi Hn. induction bits as [|[i w] t IH]; intros c Harr; [reflexivity|].
+  intros Hn. induction bits as [|[i w] t IH]; intros c Harr; [reflexivity|].
   cbn [map bit_net read_more assemble_from].
-  rewrite (bitname_inverse ident name i Hi Hn).
+  rewrite (bitname_inverse ident name i Hn).
   rewrite (mb_add_merge c i w Harr).
   apply IH. rewrite mb_merge_array. exact Harr.
 Qed.
 
-Lemma read_cable_bits {P} ident name : ident_ok ident -> name_ok name ->
+Lemma read_cable_bits {P} ident name : name_ok name ->
   forall (bits : list (N * list P)),
   read_cable (map (bit_net ident name) bits) =
   option_map (fun c => (name, ident, c)) (assemble bits).
 Proof.
-  intros Hi Hn [|[i w] t]; [reflexivity|].
+  intros Hn [|[i w] t]; [reflexivity|].
   cbn [map bit_net]. unfold read_cable.
-  rewrite (bitname_inverse ident name i Hi Hn), mb_add_first.
-  rewrite (read_more_bits ident name Hi Hn t (mkcab i true [w]) eq_refl). reflexivity.
+  rewrite (bitname_inverse ident name i Hn), mb_add_first.
+  rewrite (read_more_bits ident name Hn t (mkcab i true [w]) eq_refl). reflexivity.
 Qed.
 
 (* ------------------------------------------------------------------------------------------ *)
@@ -105,7 +103,7 @@ Proof.
   intros Hne. assert (Hlen : (1 <= N.of_nat (length ws))%N).
   { destruct ws; [congruence|]. cbn [length]. lia. }
   unfold mb_merge. cbn [c_lower c_wires c_array].
-  destruct (N.ltb_spec lo (lo + N.of_nat (length ws))) as [_|H]; [|lia].
+  destruct (N.leb_spec lo (lo + N.of_nat (length ws))) as [_|H]; [|lia].
   destruct (N.ltb_spec (lo + N.of_nat (length ws)) (lo + N.of_nat (length ws))) as [H|_]; [lia|].
   replace (lo + N.of_nat (length ws) - lo - N.of_nat (length ws))%N with 0%N by lia.
   reflexivity.
@@ -133,13 +131,13 @@ Proof.
 Qed.
 
 (* the invariant suggested for the direct proof, as a statement about the reader *)
-Lemma read_more_inorder {P} ident name : ident_ok ident -> name_ok name ->
+Lemma read_more_inorder {P} ident name : name_ok name ->
   forall (ws2 ws1 : list (list P)) lo, ws1 <> [] ->
   read_more (mkcab lo true ws1) (emit_from ident name (lo + N.of_nat (length ws1)) ws2) =
   Some (mkcab lo true (ws1 ++ ws2)).
 Proof.
-  intros Hi Hn ws2 ws1 lo Hne. rewrite emit_from_bits.
-  rewrite (read_more_bits ident name Hi Hn _ (mkcab lo true ws1) eq_refl).
+  intros Hn ws2 ws1 lo Hne. rewrite emit_from_bits.
+  rewrite (read_more_bits ident name Hn _ (mkcab lo true ws1) eq_refl).
   rewrite assemble_from_inorder by exact Hne. reflexivity.
 Qed.
 
@@ -147,26 +145,26 @@ Qed.
 (* 1. a bus written by the writer is read back                                                 *)
 
 Theorem bus_roundtrip : forall P (ident name : str) (c : cab P),
-  ident_ok ident -> name_ok name -> c_wires c <> [] -> is_bus c ->
+  name_ok name -> c_wires c <> [] -> is_bus c ->
   read_cable (emit_cable ident name c) = Some (name, ident, mkcab (c_lower c) true (c_wires c)).
 Proof.
-  intros P ident name c Hi Hn Hne Hbus.
+  intros P ident name c Hn Hne Hbus.
   rewrite (emit_cable_bus ident name c Hbus), emit_from_bits.
-  rewrite (read_cable_bits ident name Hi Hn), (assemble_inorder _ _ Hne). reflexivity.
+  rewrite (read_cable_bits ident name Hn), (assemble_inorder _ _ Hne). reflexivity.
 Qed.
 
 (* ------------------------------------------------------------------------------------------ *)
 (* 2. ... whatever the order of the bit nets in the file                                       *)
 
 Theorem bus_roundtrip_any_order : forall P ident name (c : cab P) nets,
-  ident_ok ident -> name_ok name -> c_wires c <> [] -> is_bus c ->
+  name_ok name -> c_wires c <> [] -> is_bus c ->
   Permutation nets (emit_cable ident name c) ->
   read_cable nets = Some (name, ident, mkcab (c_lower c) true (c_wires c)).
 Proof.
-  intros P ident name c nets Hi Hn Hne Hbus Hp.
+  intros P ident name c nets Hn Hne Hbus Hp.
   rewrite (emit_cable_bus ident name c Hbus), emit_from_bits in Hp.
   apply Permutation_map_inv in Hp. destruct Hp as (bits' & -> & Hp).
-  rewrite (read_cable_bits ident name Hi Hn).
+  rewrite (read_cable_bits ident name Hn).
   assert (Hne' : bits' <> []).
   { intros ->. apply Permutation_sym, Permutation_nil in Hp.
     exact (bits_from_nonempty _ _ Hne Hp). }
@@ -180,30 +178,30 @@ Qed.
 (* 3. any subset of the bits, in any order                                                     *)
 
 Theorem bus_subset_any_order : forall P ident name (bits : list (N * list P)) nets c,
-  ident_ok ident -> name_ok name -> NoDup (idxs bits) -> bits <> [] ->
+  name_ok name -> NoDup (idxs bits) -> bits <> [] ->
   nets = map (fun '(i, w) => (bit_ident ident i, bit_name name i, w)) bits ->
   read_cable nets = Some (name, ident, c) <-> assemble bits = Some c.
 Proof.
-  intros P ident name bits nets c Hi Hn _ _ ->.
+  intros P ident name bits nets c Hn _ _ ->.
   change (map _ bits) with (map (bit_net (P := P) ident name) bits).
-  rewrite (read_cable_bits ident name Hi Hn).
+  rewrite (read_cable_bits ident name Hn).
   destruct (assemble bits) as [c'|]; cbn [option_map]; split; intros H;
     try discriminate; inversion H; reflexivity.
 Qed.
 
 (* existence: the nets are always read as ONE cable *)
 Corollary bus_subset_read : forall P ident name (bits : list (N * list P)) nets,
-  ident_ok ident -> name_ok name -> NoDup (idxs bits) -> bits <> [] ->
+  name_ok name -> NoDup (idxs bits) -> bits <> [] ->
   nets = map (fun '(i, w) => (bit_ident ident i, bit_name name i, w)) bits ->
   exists c, read_cable nets = Some (name, ident, c).
 Proof.
-  intros P ident name bits nets Hi Hn Hnd Hne E.
+  intros P ident name bits nets Hn Hnd Hne E.
   destruct (assemble_nonempty P bits Hne) as (c & Hc). exists c.
-  apply (bus_subset_any_order P ident name bits nets c Hi Hn Hnd Hne E). exact Hc.
+  apply (bus_subset_any_order P ident name bits nets c Hn Hnd Hne E). exact Hc.
 Qed.
 
 Corollary bus_subset_positions : forall P ident name (bits : list (N * list P)) nets c,
-  ident_ok ident -> name_ok name -> NoDup (idxs bits) -> bits <> [] ->
+  name_ok name -> NoDup (idxs bits) -> bits <> [] ->
   nets = map (fun '(i, w) => (bit_ident ident i, bit_name name i, w)) bits ->
   read_cable nets = Some (name, ident, c) ->
      c_lower c = min_idx (idxs bits)
@@ -213,8 +211,8 @@ Corollary bus_subset_positions : forall P ident name (bits : list (N * list P)) 
   /\ (forall n, (n < length (c_wires c))%nat ->
         nth n (c_wires c) [] = lookup (c_lower c + N.of_nat n) bits).
 Proof.
-  intros P ident name bits nets c Hi Hn Hnd Hne E H.
-  apply (bus_subset_any_order P ident name bits nets c Hi Hn Hnd Hne E) in H.
+  intros P ident name bits nets c Hn Hnd Hne E H.
+  apply (bus_subset_any_order P ident name bits nets c Hn Hnd Hne E) in H.
   destruct (multibit_assemble P bits c Hnd H) as (H1 & H2 & H3 & H4).
   repeat split; try assumption. apply multibit_assemble_nth; assumption.
 Qed.
@@ -251,43 +249,21 @@ Qed.
 (* ------------------------------------------------------------------------------------------ *)
 (* 5. what is lost                                                                             *)
 
-(* a. identifiers "&" / "&_..." not ending in "_": the bit identifier is not recognised, the
-   net is a scalar whose identifier is the full bit identifier (the name IS shortened) *)
-Lemma bus_amp_lost : forall ident name i,
-  starts_amp_us (ident ++ [c_us]) = true -> (forall p, ident <> p ++ [c_us]) -> name_ok name ->
-  net_bit (bit_ident ident i) (bit_name name i) = Some (None, name, bit_ident ident i).
-Proof.
-  intros ident name i H Hp Hn. unfold net_bit.
-  rewrite (bitname_underscore_amp_lost ident i H Hp), (bitname_inverse_bracket name i Hn).
-  reflexivity.
-Qed.
-
-(* every bit net of such a cable is a scalar for the reader, so a bus of two or more bits is
-   never read as one cable *)
-Lemma bus_amp_not_read : forall P ident name (c : cab P),
-  starts_amp_us (ident ++ [c_us]) = true -> (forall p, ident <> p ++ [c_us]) -> name_ok name ->
-  (2 <= length (c_wires c))%nat ->
-  read_cable (emit_cable ident name c) = None.
-Proof.
-  intros P ident name c H Hp Hn Hlen.
-  rewrite (emit_cable_bus ident name c (or_intror Hlen)).
-  destruct (c_wires c) as [|w [|w' t]]; cbn [length] in Hlen; try lia.
-  cbn [emit_from]. unfold read_cable. rewrite (bus_amp_lost ident name _ H Hp Hn). reflexivity.
-Qed.
-
-Example bus_amp_ident_lost :
+(* a. (repaired K4) identifiers "&" / "&_...": the bit identifier is recognised like any other;
+   the former witness - bus "_x" with identifier "&_x" - is read back as one cable *)
+Example bus_amp_ident_read :
   let ident := s2l "&_x" in
   let name := s2l "_x" in
   let c := mkcab 0%N true [[1]; [2]]%nat in
      name_ok name /\ is_bus c /\ c_wires c <> []
-  /\ ~ ident_ok ident
+  /\ starts_amp_us (ident ++ [c_us]) = true
   /\ emit_cable ident name c = [(s2l "&_x_0_", s2l "_x[0]", [1]); (s2l "&_x_1_", s2l "_x[1]", [2])]%nat
-  /\ net_bit (s2l "&_x_0_") (s2l "_x[0]") = Some (None, s2l "_x", s2l "&_x_0_")
-  /\ net_bit (s2l "&_x_1_") (s2l "_x[1]") = Some (None, s2l "_x", s2l "&_x_1_")
-  /\ read_cable (emit_cable ident name c) = None.
+  /\ net_bit (s2l "&_x_0_") (s2l "_x[0]") = Some (Some 0%N, s2l "_x", s2l "&_x")
+  /\ net_bit (s2l "&_x_1_") (s2l "_x[1]") = Some (Some 1%N, s2l "_x", s2l "&_x")
+  /\ read_cable (emit_cable ident name c) = Some (name, ident, c).
 Proof.
   cbv zeta. split; [vm_compute; discriminate|]. split; [left; reflexivity|].
-  split; [discriminate|]. split; [vm_compute; discriminate|].
+  split; [discriminate|].
   repeat split; vm_compute; reflexivity.
 Qed.
 
@@ -309,14 +285,14 @@ Example bus_roundtrip_example :
   let nets := emit_cable ident name c in
   let scrambled := [nth 2 nets ([], [], []); nth 0 nets ([], [], []);
                     nth 3 nets ([], [], []); nth 1 nets ([], [], [])] in
-     ident_ok ident /\ name_ok name /\ c_wires c <> [] /\ is_bus c
+     name_ok name /\ c_wires c <> [] /\ is_bus c
   /\ nets = [(s2l "data_3_", s2l "data[3]", [30; 31]); (s2l "data_4_", s2l "data[4]", []);
              (s2l "data_5_", s2l "data[5]", [50]); (s2l "data_6_", s2l "data[6]", [60; 61; 62])]%nat
   /\ Permutation scrambled nets
   /\ read_cable nets = Some (name, ident, mkcab 3%N true (c_wires c))
   /\ read_cable scrambled = Some (name, ident, mkcab 3%N true (c_wires c)).
 Proof.
-  cbv zeta. split; [vm_compute; reflexivity|]. split; [vm_compute; discriminate|].
+  cbv zeta. split; [vm_compute; discriminate|].
   split; [discriminate|]. split; [right; cbn; lia|].
   split; [vm_compute; reflexivity|]. split; [|split; vm_compute; reflexivity].
   vm_compute.
@@ -332,5 +308,3 @@ Print Assumptions bus_subset_any_order.
 Print Assumptions bus_subset_positions.
 Print Assumptions scalar_roundtrip.
 Print Assumptions scalar_roundtrip_plain.
-Print Assumptions bus_amp_lost.
-Print Assumptions bus_amp_not_read.
